@@ -112,3 +112,7 @@ CORPUS += [
         "    def handle_parameter_changed(self, variable, index, event) -> None:\n        if not self._need_update:\n            self._need_update = True\n            self.fire_parameter_changed()\n\n    @classmethod\n    def from_json(cls, data, dic):\n        parameters = process_objects(data['parameters'], dic)",
         mode='text', expect=[('C06.H', 'handlers::torchtree.core.parameter.CatParameter::handle_parameter_changed')]),
 ]
+CORPUS += [
+    Mut('c06-shifts-handed-to-the-ratio-slot', TM, '', "            tree_model = cls(id_, tree, taxa, shifts=parameters)\n", "            tree_model = cls(id_, tree, taxa, parameters)\n", mode='text',
+        expect=[('C06.Y', 'evolution.tree_model::ReparameterizedTimeTreeModel.from_json::json-keys-reach-the-parameters-they-name')]),
+]
